@@ -460,7 +460,12 @@ class Representation:
         if (length, state) in precomputed:
             return precomputed[(length, state)]
 
-        empty_arr = np.array([]).reshape((0, self.dim, self.dim))
+        # an empty array of the representation's own type (a float64
+        # one would turn exact integer results into floats when it is
+        # concatenated with them)
+        empty_arr = utils.zeros((0, self.dim, self.dim),
+                                dtype=self.dtype,
+                                base_ring=self.base_ring)
 
         if length == 0:
             if state is None or as_start or state in automaton.start_vertices:
